@@ -1,6 +1,6 @@
 (* C16 - Parameter, header and items validators follow Swagger simple-schema semantics. *)
 From Coq Require Import List ZArith Bool.
-From Verif Require Import Base.Sx Base.GoVal Schema.Ast Schema.Pipeline Schema.Simple Schema.SimpleFacts.
+From Verif Require Import Base.Sx Base.GoVal Base.F64 Schema.Ast Schema.Pipeline Schema.Draft4 Schema.Simple Schema.SimpleFacts Schema.AgreementData Schema.AgreementDec Schema.AgreementFlocq Schema.SimpleAgree Schema.SimpleAgreeDec.
 Import ListNotations.
 Open Scope Z_scope.
 
@@ -27,3 +27,81 @@ Theorem C16_chain_first_error_exit_is_sound : forall inc steps r0 r,
   chain inc steps r0 = Ok r -> r_valid r = r_valid r0 && forallb step_valid steps.
 Proof. exact chain_verdict. Qed.
 Print Assumptions C16_chain_first_error_exit_is_sound.
+
+(* ---- the agreement theorem ---- *)
+
+(* The declarative reading of a Swagger simple schema ([q_spec], [root_spec] in Schema/SimpleAgree.v): at every level the
+   draft-4 semantics of its keywords (the very functions of Schema/Draft4.v: type, enum, the numeric and the string
+   keywords with format as an assertion, the array keywords with the items recursion), a declared numeric type and format
+   bounding the value (integers integral and inside int32 / uint32 / uint64 / int64, float inside binary32), and for the
+   parameter or header itself the required-and-empty rule.
+
+   On the class [qclean] / [qfits] - no x-nullable; enumerated values are JSON; the pattern compiles; bounds and factor are
+   numbers of the declared type and format; the formats of the levels are known together with the format of the parameter;
+   a format sits next to a numeric type, or the value at that level is not a string or array of another declared type; the
+   value is decoded JSON without null (and not the one float64, -2^63, that prints outside int64) - the verdict of
+   NewParamValidator / NewHeaderValidator (...).Validate is the verdict of that reading: for every oracle and every numeric
+   implementation with a total order and a symmetric equality.  The excluded shapes are exactly where the recorded finding
+   classes of C16 live (constraint-outside-declared-type, items-format-needs-root-format, type-format-shortcut) plus
+   x-nullable and typed Go carriers, which the tie and the exact oracle decide per case. *)
+Theorem C16_agreement_with_the_declarative_reading_partial :
+  forall OR N (fin : f64 -> Prop),
+  (forall a b, fin a -> fin b -> n_lt N a b = negb (n_le N b a)) ->
+  (forall a b, fin a -> fin b -> n_eq N a b = n_eq N b a) ->
+  forall sr d, qclean OR N fin (q_format (sr_simple sr)) (sr_simple sr) -> jd fin false true d -> qfits N (sr_simple sr) d ->
+  exists r, simple_validate OR N sr d = Ok (Some r) /\ r_valid r = root_spec OR N sr d.
+Proof. exact simple_agree. Qed.
+Print Assumptions C16_agreement_with_the_declarative_reading_partial.
+
+(* ... and the same at every level below: the items validator of an element at any depth *)
+Theorem C16_items_agreement_partial :
+  forall OR N (fin : f64 -> Prop),
+  (forall a b, fin a -> fin b -> n_lt N a b = negb (n_le N b a)) ->
+  (forall a b, fin a -> fin b -> n_eq N a b = n_eq N b a) ->
+  forall rf it p i d, qclean OR N fin rf it -> jd fin false true d -> qfits N it d ->
+  exists r, items_validate OR N rf it p i d = Ok r /\ r_valid r = q_spec OR N it d.
+Proof. exact items_agree. Qed.
+Print Assumptions C16_items_agreement_partial.
+
+(* the class is decidable; the procedure is evaluated on every case of the correspondence run *)
+Theorem C16_fragment_decision_is_sound : forall OR N fin_b sr fuel d,
+  qclean_b OR N fin_b (q_format (sr_simple sr)) (sr_simple sr) = true -> jd_b fin_b false true fuel d = true -> qfits_b N (sr_simple sr) d = true ->
+  qclean OR N (finP fin_b) (q_format (sr_simple sr)) (sr_simple sr) /\ jd (finP fin_b) false true d /\ qfits N (sr_simple sr) d.
+Proof.
+  intros OR N fin_b sr fuel d H1 H2 H3.
+  split; [apply qclean_b_sound; exact H1|]. split; [apply (jd_b_sound fin_b false true fuel d H2) | apply qfits_b_sound; exact H3].
+Qed.
+Print Assumptions C16_fragment_decision_is_sound.
+
+(* the instance the correspondence run executes (Flocq binary64) *)
+Theorem C16_agreement_for_the_binary64_model : forall OR sr fuel d,
+  qclean_b OR flocq_ops f_finite (q_format (sr_simple sr)) (sr_simple sr) = true -> jd_b f_finite false true fuel d = true ->
+  qfits_b flocq_ops (sr_simple sr) d = true ->
+  exists r, simple_validate OR flocq_ops sr d = Ok (Some r) /\ r_valid r = root_spec OR flocq_ops sr d.
+Proof.
+  intros OR sr fuel d H1 H2 H3.
+  apply (simple_agree OR flocq_ops (finP f_finite) flocq_order_total flocq_eq_sym sr d);
+    [apply qclean_b_sound; exact H1 | apply (jd_b_sound f_finite false true fuel d H2) | apply qfits_b_sound; exact H3].
+Qed.
+Print Assumptions C16_agreement_for_the_binary64_model.
+
+(* non-vacuity: a query parameter {type: array, minItems: 1, uniqueItems: true, items: {type: array, items: {type: integer,
+   format: int32, maximum: 7}}} and the value [[1, 2], [3]] over exact integers *)
+Definition c16_ops : numops :=
+  {| n_le := Z.leb; n_lt := Z.ltb; n_eq := Z.eqb; n_is_int := fun _ => true;
+     n_mult_of := fun a f => if f <=? 0 then MNotPositive else if Z.eqb (a mod f) 0 then MOk else MNotMultiple;
+     n_of_int := fun z => z; n_to_int64 := fun z => z; n_to_uint64 := fun z => z; n_exact_int := fun z => Some z; n_fits_f32 := fun _ => true |}.
+Definition c16_leaf : simple := mkSimple k_integer false k_int32 None [] None (Some 7) false None false None None 0 None None false None.
+Definition c16_row : simple := mkSimple k_array false 0 None [] None None false None false None None 0 None None false (Some c16_leaf).
+Definition c16_param : sroot :=
+  {| sr_header := false; sr_name := 40; sr_required := true; sr_allow_empty := false;
+     sr_simple := mkSimple k_array false 0 None [] None None false None false None None 0 None (Some 1) true (Some c16_row) |}.
+Definition c16_value : goval := VArr 1 [VArr 2 [VFlt false 1; VFlt false 2]; VArr 3 [VFlt false 3]].
+Definition c16_oracles : oracles :=
+  {| o_rune_len := fun _ => 0; o_re_ok := fun _ => true; o_re_match := fun _ _ => false; o_fmt_known := fun _ => false; o_fmt_check := fun _ _ => true |}.
+Example C16_fragment_is_inhabited :
+  qclean_b c16_oracles c16_ops (fun _ => true) 0 (sr_simple c16_param) = true /\
+  jd_b (fun _ => true) false true 4 c16_value = true /\ qfits_b c16_ops (sr_simple c16_param) c16_value = true /\
+  root_spec c16_oracles c16_ops c16_param c16_value = true /\
+  root_spec c16_oracles c16_ops c16_param (VArr 1 [VArr 2 [VFlt false 1; VFlt false 8]]) = false.
+Proof. vm_compute. repeat split. Qed.
